@@ -81,6 +81,8 @@ type TT struct{ F int }
 // @testonly
 func InTest() {}
 
+var sharedInTest = Helper()
+
 func testBad(x *T, tt *TT) {
 	x.F = 3 // want IMM01 dep=d/x.go
 	tt.F = 3 // want IMM01 dep=d/x_test.go
@@ -99,6 +101,8 @@ func testBad2(tt *TT) {
 			{Name: "ext_test.go", Src: `package d_test
 
 import "ex.com/m/d"
+
+var sharedInExtTest = d.Helper()
 
 func extBad(x *d.T, tt *d.TT) {
 	x.F = 5 // want IMM01 dep=d/x.go
